@@ -51,6 +51,50 @@ CLAIMS = {
    ref="DESIGN.md §4 C20"),
 }
 
+
+CLAIMS.update({
+ "C01": dict(
+   text="Static analysis, level other. Validates the parser against the published grammar, level by level: from the explored event graph of every expression-level parse function the operand callee, operator token set and right-operand callee are extracted and the chain assignment→…→unary must equal the ladder of grammer.txt (README's simplified ladder a sub-chain); on every explored path the node built in iteration i has Left = carried value, Right = this iteration's operand, Operator = matched token (left association), assignment recurses into itself and rewrites only the three assignable targets, prefix operands are parsed by unary, ** takes unary operands, call wraps the value parsed so far for each ( ) [ ] .name suffix, else binds right after the then-branch, and every node field is fed from the sub-parse named by the reference table. Does not decide that the token list is right (C09) nor the print-invariance corollary.",
+   technique="path-sensitive abstract interpretation of the recursive-descent parser (event graphs) compared with a grammar oracle parsed from grammer.txt/README",
+   ref="DESIGN.md §4 C01"),
+ "C02": dict(
+   text="Static analysis, level other. evaluateBinary/evaluateUnary are explored once per operator token the parser can produce (helpers inlined, coercions as events) and the complete set of abstract paths is compared with the reference: no silent nil and no 'unknown operator' for a supported operator; operands coerced left then right; the success value is exactly op(L,R) on the coerced operands in order; / and % only behind right==0→error, shifts only behind count<0→error; ==/!= route to isEqual, which is Go == on the canonical representations (containers by identity); toInt64 accepts only integral floats. IEEE results, math.Pow/Mod accuracy and int64 wrap-around are inherited from Go, not decided.",
+   technique="per-operator path-set comparison by abstract interpretation of go/ssa with symbolic result expressions",
+   ref="DESIGN.md §4 C02"),
+ "C07": dict(
+   text="Static analysis, level other. Every SSA instruction that can panic or kill the process is enumerated over all functions reachable from main and discharged by a rule: comma-ok assertions; interface comparisons on dynamic-type sets narrowed by dominating type tests; index/slice expressions by difference-bound reasoning over dominating guards, executed index expressions and who-writes field invariants, with four named lemmas (call arity ⇒ arguments[k]; scanner advance only with a rune left; string slice after two consumed runes; parser cursor ≤ EOF index) re-proved on every run from the explored scanner/parser/evaluator models; integer division; signed shifts; nil maps/signals; no panic/exit reachable from run; structural recursion; no goroutines/unsafe. Two known findings (unbounded Borno recursion, printing a self-containing array) are listed in known_findings.json. Library functions are trusted not to panic.",
+   technique="panic-site enumeration over go/ssa + dominating-guard facts with a difference-bound-matrix reasoner + who-writes field invariants + model-based lemmas",
+   ref="DESIGN.md §4 C07"),
+ "C08": dict(
+   text="Static analysis, level other. Progress (least-fixpoint of consuming parse functions, every parser and scanner cycle consumes, no left recursion); accept ⇔ grammar: for program, declaration, statement, expression, assignment and unary the automaton extracted from the code (success paths, lenient consumes mandatory, non-anchor functions inlined as minimised DFAs) is checked for regular-language equivalence with the automaton of grammer.txt's production under the documented reading rules, with a shortest distinguishing word as witness; lookahead tests may not cut a nonterminal's FIRST set except `{` at statement; rejection rules are exactly the documented filters, reported at the documented token; every parser error goes through the flag-raising reporter and Interpret runs only after a false HadError test. Unicode classification per code point and the first-diagnostic claim for texts with lexical errors are not decided.",
+   technique="automata extraction from abstract interpretation of the parser + DFA equivalence against the grammar file; progress fixpoint; who-creates-errors queries",
+   ref="DESIGN.md §4 C08"),
+ "C09": dict(
+   text="Static analysis, level other. The scanner is explored with its cursor API abstracted to a model tracking end-of-input knowledge, interval facts about the rune under the cursor and the next one, runes consumed since token start and newline bookkeeping (the primitives' bodies are matched against reference words): every path adds one token, or reports and adds none, or is a documented skip; the decision table (first rune → match tests → token) equals the reference table of one- and two-character operators; every possibly-newline rune is paired with exactly one line increment; keyword table = README's table ∪ {nil}; string value = source[start+1:current-1]; who-writes facts give the partition property and the single EOF. unicode.IsLetter/IsMark are inherited.",
+   technique="abstract interpretation of the scanner with a cursor/rune-fact model (interval constraints) + table extraction + who-writes queries",
+   ref="DESIGN.md §4 C09"),
+ "C10": dict(
+   text="Static analysis, level other; the per-character part is exhaustive. The transliteration table is constant-evaluated (ten Bengali digits → the ASCII digit of the same Unicode value) and the loop shape (one write per rune: image or the rune itself) is checked; isDigit's accepted set is computed by interval evaluation over all code points and must be ASCII digits ∪ the table's domain; number() consumes only digits or a point followed by a known digit; the NUMBER literal is ParseFloat(transliterated lexeme, 64) with a diagnostic and no token on error; every ParseFloat in the module is behind the transliteration with bit size 64. Correct rounding is ParseFloat's contract (trusted).",
+   technique="constant evaluation of tables + interval evaluation of the classifier + abstract interpretation of number() with the scanner cursor model",
+   ref="DESIGN.md §4 C10"),
+ "C11": dict(
+   text="Static analysis, level other. Indexed read, indexed write and রিমুভ are compared path by path with the reference (array test, integer coercion, both bound tests on the very index/array used, exactly array[index] touched); every slice-typed result of a built-in is rooted at storage it allocated itself (no aliasing with arguments); এড/রিমুভ/লেন match their reference words; array literals are fresh per evaluation; nothing on value paths copies an array. The list-model equivalence over histories is not executed.",
+   technique="path-set comparison by abstract interpretation + SSA ownership (fresh-root) analysis of returned slices",
+   ref="DESIGN.md §4 C11"),
+ "C12": dict(
+   text="Static analysis, level other. Property read/write, কি_রিমুভ and the object-literal clause are compared path by path with the reference (object test, existence test, store/delete of exactly the named key, fresh map per literal with one store per recorded name); key and value listings iterate one shared deterministic ordering of the object's keys, so they are mutually consistent and complete; the parser records each distinct literal name once. The map-model equivalence over histories is not executed; fmt printing all entries is inherited.",
+   technique="path-set comparison by abstract interpretation + shape check of the shared ordering function",
+   ref="DESIGN.md §4 C12"),
+ "C17": dict(
+   text="Static analysis, level other. Registration table (17 documented names, each a Callable, each reserved in the parser); each math built-in's success paths return exactly math.F(toNumber(arguments[0])) for its documented F, ঘাত is math.Pow(toNumber(a0),toNumber(a1)) — the expression ** computes; the clock derives from time.Now in seconds; min/max have the reference fold shape (init from element 0, guarded update under </>, single-array flattening, emptiness rejected before and after); Arity() agrees with the argument-count test and indexes used; failed coercions end in a non-nil error. Numerical accuracy of math.* is inherited.",
+   technique="path-set comparison by abstract interpretation with symbolic result expressions + SSA loop-shape check + table agreement",
+   ref="DESIGN.md §4 C17"),
+ "C18": dict(
+   text="Static analysis, level other. Each invariance family is decided as non-interference by forward taint over go/ssa: values read from line fields reach only line fields, diagnostic arguments and the documented `ধরি` same-line test; lexemes reach only equality-compared map keys, diagnostics and String() methods; `&&`/`||` scan to the token types of এবং/বা; the Grouping clause returns exactly its content's results and no node-kind test exists outside eval's dispatch except at three documented places; digit-script invariance is C10's rule set. Family (f), never-executed code, is not decided.",
+   technique="interprocedural forward taint (non-interference) over go/ssa def-use chains + table agreement + clause automaton",
+   ref="DESIGN.md §4 C18"),
+})
+
 PENDING = {}
 
 def main():
